@@ -122,7 +122,10 @@ CLAIMS = {
              "the repo's templates, ManagedFilter.h and innovation_filtering.h and a dimension-typed Eigen stand-in is type-checked: "
              "compatible, construction, tick with/without readings, by-hand calls. Reading::sensor_model delegates to the filter; the C++ "
              "step/tick plans satisfy C10/C11's rules.",
-        note="Not decided: linking, real Eigen, the sympy-printed bodies (C02). Trusts clang, the stand-in Eigen, and that fv.minieval's printer mirrors ast_tools.",
+        note="Not decided: linking, real Eigen, the sympy-printed expressions (C02). Trusts clang, the stand-in Eigen and jinja2 (templates are rendered by a static "
+             "renderer for the subset the repo uses). The declaration skeleton is what the repo's own construction code *and printer* (ast_fragments, cpp._header_body / "
+             "_source_body, cpp.Config.ccode, the generator classes' body builders and enable_* methods, ast_tools.<Node>.compile) produce when evaluated by "
+             "fv.minieval on stand-in generators; only the sympy expressions inside the bodies are stubbed.",
         ref="3/C12"),
     "C01": dict(
         technique="abstract interpretation over a name-layout domain + symbolic evaluation of the temporaries protocol (static)",
